@@ -12,7 +12,7 @@ func vSwapWithRequest(version uint8, liquid bool, swapIn bool) *SwapData {
 	}
 	asset, network := "", "mainnet"
 	if liquid {
-		asset, network = "6f0279e9ed041c3d710a9f57d0c02928416460c4b722ae3457a11eec381c526d", ""
+		asset, network = vLiquidAsset, ""
 	}
 	if swapIn {
 		s.SwapInRequest = &SwapInRequestMessage{ProtocolVersion: version, Asset: asset, Network: network}
